@@ -199,7 +199,7 @@ func VerifBB_v1_run() {
 	for i := range e.ps {
 		if !e.removed[i] {
 			vAssert(e.closed[i], "C07/C17: GracefulStop returns only when every input that is still registered has been closed")
-			vAssert(len(e.ins[i]) == 0, "C02/C07/C17: GracefulStop returns only when every input that is still registered has been emptied (nothing written before the close is lost)")
+			vAssert(len(e.ins[i]) == 0, "C02/C06/C07/C17: GracefulStop returns only when every input that is still registered has been emptied (nothing written before the close is lost or left undelivered)")
 			vAssert(len(e.queue[e.ins[i]]) == 0, "C02/C17: everything read from a registered input was written out before GracefulStop returned")
 		}
 	}
